@@ -1,5 +1,6 @@
 """C02 - dictable.join is the relational inner/cross join and xor the anti-join; both terminate; operands unchanged."""
 import datetime, functools, itertools, json, math, os
+from fractions import Fraction
 from implutil import dt2us, us2dt, err_name
 
 ID = 'C02'
@@ -12,9 +13,10 @@ COQ_PRELUDE = '''Definition run_both (c : ctable * ctable * spec * spec) : J :=
 PER_FILE = 500
 CASE_TIMEOUT = 2.5
 # xor with NO key column returns x.copy() whatever y holds (pinned by tests/test_dictable.py::test_dictable_xor_no_rhs);
-# read literally the property text would make it empty when y has rows.  Reported to the coordinator; the oracle
-# flags it only when this switch is on (then it needs the KNOWN_FINDINGS entry matched by findings.c02_xor_no_key_is_copy).
-FLAG_NOKEY_XOR = os.environ.get('C02_FLAG_NOKEY_XOR', '0') == '1'
+# by the letter of the property the empty key matches every row of y, so the result should be empty when y has rows.
+# KNOWN FINDING: the oracle flags it (switch on by default); KNOWN_FINDINGS.json downgrades exactly that input class
+# through findings.c02_xor_no_key_is_copy.
+FLAG_NOKEY_XOR = os.environ.get('C02_FLAG_NOKEY_XOR', '1') == '1'
 
 RULE = ('cases: two tables of 0-6 rows with 0-3 key columns and 0-3 other columns (some names shared so that the mode matters), key cells drawn '
         'per column from a small pool {None, 0, 1, 1.0, 2, 1.5, NaN objects of 3 identities, "a", "b", "ab", two datetimes} so that duplicate keys '
@@ -33,15 +35,15 @@ EXPLANATION = ('theorems C02_* (coq/props/C02.v) hold for all key lists and ever
 TRUSTED = ['modelled, not verified: dictable construction/__getitem__/__setitem__, ulist column algebra, kwargs_support (validated by the correspondence only)',
            'the (None, []) sentinel group _listby returns for an empty table is modelled as "no group"',
            'sort() is modelled as the stable sort by cmp (the repaired behaviour of C07); on a tree without the C07 repair NaN keys are mis-sorted and the check reports it']
-ASSUMPTIONS = ['key cells are None, ints, half-integer floats of small magnitude, NaN, ASCII strings, datetimes (no bools, no containers)',
-               'xor with zero key columns returns a copy of x (documented by test_dictable_xor_no_rhs); the anti-join claim is checked for >= 1 key column',
+ASSUMPTIONS = ['key cells are None, ints of any size, floats that are exact half-integers (incl. float(2**53)), NaN, ASCII strings, datetimes (no bools, no containers)',
+               'xor with zero key columns returns a copy of x although y has rows (test_dictable_xor_no_rhs pins it): flagged by the oracle and listed as a KNOWN FINDING; the Coq anti-join theorem at table level is stated for >= 1 key column and C02_xor_no_key_refuted records the divergence',
                'when a non-key column has the name of an output key column the key wins (the column cannot appear twice)']
 EXHAUSTIVE = {'quick': False, 'thorough': False}
 LEVEL_TEXT = ('machine-checked Coq theorems (C02_*, all tables, every total-preorder comparator) about the model of _listby/join/xor: termination of the '
               'merge loops within |L|+|R|+1 iterations, join = relational join and xor = anti-join as Permutations, left-join partition; the model is '
               'compared with the real code inside Coq on thousands of generated table pairs per run, and a nested-loop oracle checks the real outputs')
-LEVEL_NOTE = ('trusted: Coq kernel/vm_compute; modelled not verified: dict/ulist plumbing of dictable and kwargs_support. Known: xor with no key returns x '
-              '(tested behaviour). Depends on the C07 repair of sort() for NaN keys.')
+LEVEL_NOTE = ('trusted: Coq kernel/vm_compute; modelled not verified: dict/ulist plumbing of dictable and kwargs_support. Known finding: xor with no key column '
+              'returns x although y has rows (KNOWN_FINDINGS.json). Relies on the repairs of sort() (NaN) and cmp() (exact ints).')
 TECHNIQUE = 'Coq proof (induction on the fuelled merge, refinement to a one-step merge, NoDup/Permutation) + differential correspondence in vm_compute + nested-loop oracle'
 
 # ------------------------------------------------------------------ cells
@@ -166,7 +168,7 @@ def canon(v, exact):
     if isinstance(v, tuple): return ('t',) + tuple(canon(e, exact) for e in v)
     if is_num(v):
         if v != v: return ('nan',)
-        return ('n', float(v), type(v).__name__ if exact else '')
+        return ('n', Fraction(v), type(v).__name__ if exact else '')      # exact: 2**53+1 != float(2**53)
     if isinstance(v, str): return ('s', v)
     return ('d', v)
 
@@ -385,6 +387,8 @@ POOLS = {
     'date': [['d', D1], ['d', D2]],
     'mixed': [None, ['i', 0], ['i', 1], ['f', 2], ['i', 2], ['f', 3], ['s', 'a'], ['s', 'b'], ['d', D1], ['d', D2]],
     'none': [None, None, ['i', 1], ['f', 2], ['s', 'a']],
+    'big': [['i', 2**53], ['i', 2**53 + 1], ['i', 2**53 + 2], ['i', -(2**53) - 1], ['f', 2 * 2**53], ['f', 2 * (2**53 + 2)], ['i', -(2**53)]],
+    'bigmixed': [['i', 2**53], ['i', 2**53 + 1], ['f', 2 * 2**53], ['i', -(2**53) - 1], ['f', -2 * 2**53], None, ['s', 'a'], ['i', 1]],
     'nan': [['nan', 1], ['nan', 2], ['nan', 3], ['i', 1], ['f', 2], ['i', 0]],
     'nanmixed': [['nan', 1], ['nan', 2], ['nan', 3], None, ['i', 1], ['f', 2], ['s', 'a'], ['d', D1]],
 }
@@ -399,7 +403,7 @@ def rand_case(rng, stream, kind=None):
     nx = rng.choice([0, 1, 2, 3, 3, 4, 5, 6]); ny = rng.choice([0, 1, 2, 3, 3, 4, 5, 6])
     nk = rng.choice([0, 1, 1, 1, 2, 2, 3])
     knames = ['a', 'b', 'c'][:nk]
-    pools = [rng.choice(['nan', 'nanmixed'] if (nan and k == 0) else ['int', 'num', 'num', 'str', 'date', 'mixed', 'mixed', 'none']) for k in range(nk)]
+    pools = [rng.choice(['nan', 'nanmixed'] if (nan and k == 0) else ['int', 'num', 'num', 'str', 'date', 'mixed', 'mixed', 'none', 'big', 'bigmixed']) for k in range(nk)]
     x = [[k, rand_col(rng, p, nx)] for k, p in zip(knames, pools)]
     y = [[k, rand_col(rng, p, ny)] for k, p in zip(knames, pools)]
     # other columns: v is shared (mode matters), d only left, e only right
